@@ -319,7 +319,7 @@ def d3_selection(ctx):
     ctx.floor('range selections', n, 3)
     # ms5_xsf explicit list selection: sample appended iff its configuration number is wanted, together with the number
     f = m.func('read_ms5_xsf')
-    t = unparse(f)
+    t = m.text(f)
     ok = 'idl_wanted = cnfg in expected_idl[repnum]' in t and 'cnfgs[repnum].append(cnfg)' in t
     ap = [c for c in walk(f) if isinstance(c, ast.Call) and isinstance(c.func, ast.Attribute) and c.func.attr == 'append' and unparse(c.func.value) == 'cnfgs[repnum]']
     g = [unparse(x) for x, pol in guards_of(m, ap[0], stop=f) if pol and unparse(x) != 'True'] if ap else []
@@ -329,7 +329,7 @@ def d3_selection(ctx):
     ctx.check(rule, 'input/openQCD.py:read_ms5_xsf#explicit-selection', ok, 'configuration number and samples are appended under the same condition', 'selection guards %s / %s' % (g, samples_g))
     hd = ctx.repo.mod('input.hadrons')
     f = hd.func('_get_files')
-    t = unparse(f)
+    t = hd.text(f)
     ok = 'filtered_files.append(line)' in t and 'cnfg_numbers.append(no)' in t and 'no = get_cnfg_number(line)' in t and 'Counter(list(idl)) != Counter(cnfg_numbers)' in t
     ctx.check(rule, 'input/hadrons.py:_get_files#selection', ok, 'file and configuration number are selected together; missing configurations raise', '_get_files differs')
 
@@ -375,23 +375,23 @@ def d5_derivation(ctx):
     m = ctx.repo.mod('input.openQCD')
     for q in ('read_rwms', '_extract_flowed_energy_density'):
         f = m.func(q)
-        t = unparse(f)
+        t = m.text(f)
         ok = "rep_names.append(truncated_entry[:idx] + '|' + truncated_entry[idx:])" in t and 'for entry in ls:' in t
         ctx.check(rule, 'input/openQCD.py:%s#names-from-files' % q, ok, 'replica names are derived from the file names in file-list order', 'name derivation differs')
         ok = "open(path + '/' + ls[rep], 'rb')" in t and 'for rep in range(replica):' in t
         ctx.check(rule, 'input/openQCD.py:%s#files-in-order' % q, ok, 'replica rep is read from ls[rep]', 'file loop differs')
-        ok = 'configlist[-1].append(' in t and 'configlist[-1] = [item // diffmeas for item in configlist[-1]]' in t
+        ok = 'configlist[-1].append($V)' in t and 'configlist[-1] = [item // diffmeas for item in configlist[-1]]' in t
         ctx.check(rule, 'input/openQCD.py:%s#config-numbers' % q, ok, 'configuration numbers = stored trajectory numbers / spacing, per replica', 'config number handling differs')
     f = m.func('_read_flow_obs')
-    t = unparse(f)
+    t = m.text(f)
     ok = "rep_names.append(ens_name + '|' + truncated_file[idx:].split('.')[0])" in t and 'for rep, file in enumerate(files):' in t and 'deltas.append(Q_top)' in t
     ctx.check(rule, 'input/openQCD.py:_read_flow_obs#names-from-files', ok, 'names and samples appended in the same loop over the files', 'derivation differs')
     f = m.func('read_rwms')
-    t = unparse(f)
+    t = m.text(f)
     ok = 'tmp_nfct *= np.mean(np.exp(-np.asarray(tmp_rw[j])))' in t and 'tmp_nfct *= np.mean(np.exp(-np.asarray(tmp_rw)))' in t and 'tmp_array[i].append(tmp_nfct)' in t
     ctx.check(rule, 'input/openQCD.py:read_rwms#reduction', ok, 'documented reduction: product over factors of the source average of exp(-x)', 'reduction differs')
     f = m.func('_read_flow_obs')
-    t = unparse(f)
+    t = m.text(f)
     ok = 'Q_sum.append([sum(item[current:current + tmax]) for current in range(0, len(item), tmax)])' in t and 'Q_sum.append([item[int(tmax / 2)]])' in t
     ctx.check(rule, 'input/openQCD.py:_read_flow_obs#reduction', ok, 'timeslice sum (or central timeslice) per flow time', 'reduction differs')
     ok = 'Q_top.append(Q_sum[i * (ncs + 1) + index_aim][0])' in t and 'Q_top.append(Q_sum[dtr_cnfg * i][index_aim])' in t and 'index_aim = round(c / cstepsize)' in t and 'index_aim = round(t_aim / eps / dn)' in t
